@@ -36,6 +36,7 @@ FLOORS = {'probes': 2000, 'name_probes': 20,
           'probes_after_reassignment': 500, 'derived_models': 5, 'narrow_extracts': 2,
           'switched_chain_evaluations': 100,
           'whole_row_column_evaluations': 40,
+          'workbooks_with_sheet_local_twin_names': 5,
           'reassignments_xlcell': 10,
           'failing_evaluations_before_reassignment': 20}
 ANCHOR_FUNCS = {
@@ -70,6 +71,11 @@ def gen_workbook(rng, sheets):
             for c in range(1, NCOL + 1):
                 if rng.random() < 0.75:
                     cells[(s, c, r)] = p * 3 ** ((r - 1) * NCOL + (c - 1))
+        # constants that are "nothing" for Python and values for a sheet
+        filled = [k for k in cells if k[0] == s]
+        for v0 in (0, 0.0, False):
+            if filled:
+                cells[rng.choice(filled)] = v0
         letters = 'abcdefghijkl' if si % 2 == 0 else 'mnopqrstuvwx'
         k = 0
         for r in range(LET_ROW0, LET_ROW0 + 3):
@@ -437,11 +443,27 @@ def run(ctx):
         wb.cells[k_y] = ('f', ('bin', '+', ('ref', None, 41, 1, False, False),
                                ('call', 'SUM', [('rng', sw_other, 1, 1, 2, 2,
                                                  (False,) * 4)])))
+        xl_sheets = list(sheets)
+        if path_kind == 'xlsx' and names:
+            # a scratch sheet with private names of the same spelling as the
+            # workbook's (localSheetId), bound to its own cells: they are that
+            # sheet's business and change nothing for the other sheets
+            scratch_s = 'Scratch Pad'
+            xl_sheets.append(scratch_s)
+            wb.cells[(scratch_s, 3, 5)] = 987654
+            wb.cells[(scratch_s, 2, 4)] = 111
+            wb.cells[(scratch_s, 3, 4)] = 222
+            wb.cells[(scratch_s, 2, 5)] = 333
+            wb.local_names = [
+                (nm, ('ref', scratch_s, 3, 5, True, True) if t[0] == 'ref'
+                 else ('rng', scratch_s, 2, 4, 3, 5, (True,) * 4), scratch_s)
+                for nm, t in names.items()]
+            ctx.event('workbooks_with_sheet_local_twin_names')
         try:
             if path_kind == 'xlsx':
                 model = build.model_from_xlsx(
                     wb, os.path.join(outdir, f's{ctx.shard}_{b}.xlsx'),
-                    sheet_order=sheets)
+                    sheet_order=xl_sheets)
             else:
                 model = build.model_from_dict(wb, default_sheet=sheets[0])
             prov = rng.choice(['compiled', 'compiled', 'extracted', 'json',
